@@ -203,6 +203,7 @@ def relay_scenarios(ctx, s1, s2):
         add("nsq_to_nsq", MODES[i % 3], "", 1 + i % 2, [["A", "R"], ["R", "A"]][: 1 + i % 2], long_stall=True, nmsgs=3)
     # a filter / sampling was requested (validated against RelayAbs with Filter = TRUE)
     add("nsq_to_nsq", "hostpool", "", 1, [["R"]], filter="require", nmsgs=6)
+    add("nsq_to_nsq", "round-robin", "", 1, [["R"]], filter="requirevalue", nmsgs=8)
     add("nsq_to_nsq", "round-robin", "", 2, [["R"], ["L"]], filter="whitelist", nmsgs=6)
     add("nsq_to_http", "hostpool", "post", 1, [["R", "A", "R"]], filter="sample", nmsgs=8)
     # probe (not judged): go-nsq's default max_attempts = 5
